@@ -7,20 +7,30 @@ PROP = {'drive': ['Otl'], 'modules': ['SfntV.Props.C08'],
                        'C08_st_len_gsub1_2', 'C08_st_roundtrip_gsub2_1_3_1', 'C08_st_len_gsub2_1_3_1', 'C08_st_roundtrip_gsub4_1', 'C08_st_roundtrip_gsub8_1',
                        'C08_lookuplist_layout', 'C08_valuerecord_roundtrip', 'C08_st_roundtrip_gpos1_1',
                        'C08_st_roundtrip_gpos1_2', 'C08_gpos1_2_normal_form', 'C08_st_roundtrip_gpos2_1',
-                       'C08_anchor_roundtrip', 'C08_st_roundtrip_gpos3_1',
+                       'C08_anchor_roundtrip', 'C08_st_roundtrip_gpos3_1', 'C08_markarray_roundtrip',
+                       'C08_st_roundtrip_gpos4_1_6_1', 'C08_gpos2_2_classpart', 'C08_st_roundtrip_gpos2_2',
+                       'C08_st_roundtrip_seqcontext1', 'C08_st_roundtrip_seqcontext3',
+                       'C08_st_roundtrip_chainedseqcontext1', 'C08_st_roundtrip_chainedseqcontext3',
+                       'C08_ctx_classpart', 'C08_st_roundtrip_seqcontext2', 'C08_st_roundtrip_chainedseqcontext2',
                        'C08_featurelist_roundtrip', 'C08_gdef_roundtrip', 'C08_gtab_roundtrip',
                        'C08_gtab_nil_normal_form', 'C08_scriptlist_roundtrip', 'C08_scriptlist_encode_total',
                        'C08_gtab_scriptlist_roundtrip'],
  'areas': [('otl', 900, 12000)],
  'rule': 'distinct case lines; non-trivial = coverage/class tables with at least two glyphs/runs, every '
          'subtable, every lookup-list and every mutated-bytes case',
- 'partial': ['codecs proved: GSUB 1.1, 1.2, 2.1, 3.1, 4.1, 8.1, GPOS value records, GPOS 1.1, 1.2, 2.1, anchors, GPOS 3.1, feature list, '
+ 'partial': ['codecs proved: GSUB 1.1, 1.2, 2.1, 3.1, 4.1, 8.1, GPOS value records, GPOS 1.1, 1.2, 2.1, 2.2, anchors, mark arrays, GPOS 3.1, 4.1, 6.1, SeqContext1/2/3, ChainedSeqContext1/2/3, feature list, '
              'script list, GSUB/GPOS header, GDEF',
-             'modelled and tied by byte-exact encode / value-exact decode correspondence (incl. the 16-bit '
-             'boundary of every offset and mutated bytes) but without round-trip theorems yet: '
-             'GPOS 2.2, 4.1, 6.1 (with mark arrays), SeqContext1/2/3 and '
-             'ChainedSeqContext1/2/3 (streams otl.gsub.*, otl.gpos.*). Not modelled: GPOS 5.1 (the library has '
+             'every codec with an encoder in the library has a round-trip theorem; additionally all are tied by '
+             'byte-exact encode / value-exact decode correspondence (incl. the 16-bit boundary of every offset, '
+             'nil vs empty rule sets, mutated bytes), by D otl.ctx.len (|encode| = encodeLen on the real code) and '
+             'by D otl.ll.prop on lookup lists of real context subtables. Not modelled: GPOS 5.1 (the library has '
              'no encoder for it: encode/encodeLen panic "not implemented")',
+             'context lookups: hypotheses that are restrictions of the code, not of the data: SeqContext3 / '
+             'ChainedSeqContext3 need at least one (input) coverage table (the readers reject 0, the encoders write '
+             'it); class-based formats keep only NumClasses rule sets on reading (hcls); ChainedSeqContext1/2 '
+             'check header offsets only when they meet a non-nil rule set (hn: > 32764 rule sets, all nil, wrap the '
+             'coverage offset silently - degenerate, not repaired); ChainedSeqContext2.read recomputes the '
+             'encoder positions from the decoded class tables (hal)',
              'script list: ScriptListInfo.encode / readScriptList are modelled and proved on the OpenType side of '
              'the tag conversion (C08_scriptlist_roundtrip: every (script, language system, required, optional) '
              'entry written is read back and nothing else, wherever the list lies in a table; entries compared as '
@@ -42,6 +52,11 @@ PROP = {'drive': ['Otl'], 'modules': ['SfntV.Props.C08'],
              'about it: the lookup-list theorem recovers the structure with the specification reader '
              'LL.specRead, and the direct stream otl.ll.prop evaluates that reader on the bytes of the '
              'real encoder',
+             'reader limits the encoders do not check (loud: the written table is rejected by the library reader; '
+             'hypotheses hno / hn of the theorems): GPOS 4.1/6.1 base arrays with more than 32764 anchor offsets '
+             '(6553 base glyphs x 5 classes with all but one anchor empty: "GPOS4.1 table too large"; replayable as '
+             'D otl.gpos.rt41 nb=6553 nc=5) and GPOS 2.2 with class1Count*class2Count >= 65536 (only if every value '
+             'record is nil). Not repaired: degenerate inputs, and it is not clear which side should change',
              'GPOS 1.2: a nil record next to non-nil ones reads back as a zero record (explicit normal '
              'form, C08_gpos1_2_normal_form); 65536 records (possible only if all are nil) are outside '
              'the theorem: valueCount is then written as 0 (not repaired, no practical input)',
@@ -64,14 +79,14 @@ PROP = {'drive': ['Otl'], 'modules': ['SfntV.Props.C08'],
 
 LEVEL = {'text': 'Proof (partial over subtable types): Lean models of coverage.Table/Set Encode/EncodeLen/Read, '
          'classdef.Table Append/AppendLen/Read, LookupList.encode with tryReorder and extension records '
-         '(subtables as opaque blobs), GSUB 1.1/1.2/2.1/3.1/4.1/8.1, GPOS value records and 1.1/1.2/2.1/3.1 with anchors, the '
+         '(subtables as opaque blobs), GSUB 1.1/1.2/2.1/3.1/4.1/8.1, GPOS value records and 1.1/1.2/2.1/2.2/3.1/4.1/6.1 with anchors and mark arrays, the '
          'feature list, the script list, the GSUB/GPOS header and GDEF; theorems: decode(encode x) = x, declared size = emitted size, coverage '
          'indices 0..n-1 in glyph order, the smaller format is chosen, independence of map iteration order, '
          'and for every lookup list either the specification reader recovers every (type, flags, mark '
          'filtering set, subtable bytes) through the written 16-bit offsets and 32-bit extension offsets, or '
          'the encoder panics - never a wrapped offset. Tied to the code by byte-exact encoder and '
          'value-exact decoder correspondence (generated, boundary and mutated inputs) and by evaluating '
-         'independent specification readers on the bytes of the real encoders. Twenty-two silent 16-bit '
+         'independent specification readers on the bytes of the real encoders. Twenty-three silent 16-bit '
          'truncations found on the way were repaired as loud refusals (one, classdef format 1, as a '
          'correct choice of format 2).',
  'note': 'Trusted: Lean kernel + 3 standard axioms; hand-written models mirror the (repaired) Go code as checked '
